@@ -59,8 +59,10 @@ vals.declare_obj("LayerRuleViolationDetector", dict(_module_requirement="ModuleR
 LD = "LayerRuleViolationDetector"
 # modelling device: the layer detector's record extends the module detector's (same two requirement fields), so the base-class contracts apply to it
 REG.class_bases["LayerRuleViolationDetector"] = ["RuleViolationDetector"]
+# layer names in the detector's proofs: an uninterpreted sort (the detector only compares / hashes them; in the string view they are str)
+vals.TYPE_ALIASES["LayerName"] = ("opaque", "LayerName")
 REG.add(Contract("LayerMapping.get_layer_for_module_name", module=M_EA2, kind="method", status="bounded", pure=True,
-                 params=dict(self="Opaque[LayerMapping]", module_name="Node"), returns="Opt[Str]",
+                 params=dict(self="Opaque[LayerMapping]", module_name="Node"), returns="Opt[LayerName]",
                  note="in the layer detector's proofs (names uninterpreted) the lookup is ONE uninterpreted function layer_of(mapping, name); what that function is -- the layer "
                       "listing the module or a DOTTED ancestor of it -- is proved separately on the real code in the string view (contracts/c_layermap.py: "
                       "LayerMapping.get_layer_for_module_name@str, __init__, _get_layer, _get_layer_or_none); the link between the two views is by name, not by proof"))
@@ -99,7 +101,9 @@ REG.add(Contract(f"{LD}._get_any_missing_dependencies_in_user_specified_order", 
                  ensures=["implies(exists(Dep, lambda x: realised_rel_m(self._module_requirement, not_explicitly_requested_dependencies, x) and cross_layer(self._layer_to_module_mapping, x)), "
                           "not nonempty(result))",
                           "implies(not exists(Dep, lambda x: realised_rel_m(self._module_requirement, not_explicitly_requested_dependencies, x) and cross_layer(self._layer_to_module_mapping, x)), "
-                          "nonempty(result) == (exists(Mod, lambda m: m in not_explicitly_requested_dependencies) and nonempty(self._module_requirement._importees_as_specified_by_user)))"],
+                          "nonempty(result) == (exists(Mod, lambda m: m in not_explicitly_requested_dependencies) and nonempty(self._module_requirement._importees_as_specified_by_user)))",
+                          # exact (both inclusions): one (subject module, user-specified object) pair per key, in user order, iff no reported import leaves the layer
+                          "forall(Dep, lambda x: (x in result) == layer_missing_rel(self._module_requirement, self._layer_to_module_mapping, not_explicitly_requested_dependencies, x))"],
                  locals=dict(dependencies="Bag[Dep]"), cases=["self._module_requirement._importer_specified_as_rule_subject"], properties=["C05"]))
 for _name, _K, _rel in (("_should_not_requirement_violations", "Dep", "realised_rel"), ("_should_only_requirement_violations_by_not_explicitly_requested_dependency", "Mod", "realised_rel_m"),
                         ("_should_only_except_requirement_violations_due_to_explicit_dependency_present", "Dep", "realised_rel"), ("_should_not_except_requirement_violations", "Mod", "realised_rel_m")):
@@ -225,7 +229,7 @@ REG.contracts[f"{LR}.are_named"].alt = REG.contracts[f"{LR}.are_named@list"]
 # The detector's proofs keep the layer mapping opaque: layer_of(L, n) (above) and layers_of(L) = the layer names the mapping knows are uninterpreted functions of the
 # mapping object. What they ARE on a real LayerMapping is proved in the string view (c_layermap.py: get_layer_for_module_name@str, all_layers@str).
 REG.add(Contract("LayerMapping.all_layers", module=M_EA2, kind="property", status="abstraction", pure=True,
-                 params=dict(self="Opaque[LayerMapping]"), returns="Bag[Str]",
+                 params=dict(self="Opaque[LayerMapping]"), returns="Bag[LayerName]",
                  note="opaque view of LayerMapping.all_layers (the keys of the layer definition; proved in the string view as LayerMapping.all_layers@str): ONE uninterpreted set layers_of(mapping)"))
 REG.macro("layers_of", ["L"], "LayerMapping.all_layers(L)")
 # the module of an (importer, importee) pair that decides which OBJECT layer the pair belongs to: the rule object's side
@@ -249,5 +253,52 @@ REG.add(Contract(f"{LD}.__init__", module=M_LD, kind="method",
 REG.add(Contract(f"{LD}._get_module_relevant_for_layer", module=M_LD, kind="method", params=dict(self=LD, dependency="Dep"), returns="Mod",
                  # C05: pairs are grouped by the layer of the RULE OBJECT's side (importee for 'access', importer for 'be accessed by')
                  defn="rel_mod_b(self._module_requirement._importer_specified_as_rule_subject, dependency)", properties=["C05"]))
-REG.add(Contract(f"{LD}._get_layer_for_module", module=M_LD, kind="method", params=dict(self=LD, module="Mod"), returns="Opt[Str]",
+REG.add(Contract(f"{LD}._get_layer_for_module", module=M_LD, kind="method", params=dict(self=LD, module="Mod"), returns="Opt[LayerName]",
                  defn="layer_of(self._layer_to_module_mapping, mid(module))", properties=["C05"]))
+_SUBJ = "self._module_requirement._importer_specified_as_rule_subject"
+_LMAP = "self._layer_to_module_mapping"
+REG.add(Contract(f"{LD}._get_abstract_dependencies_without_any_realisations", module=M_LD, kind="method",
+                 params=dict(self=LD, explicitly_requested_dependencies="Dict[Dep,Bag[Dep]]"), returns="Set[Dep]",
+                 # C05: 'access' needs at least ONE import into EACH named object layer: the pairs of an object layer are reported (all of them) iff none of them is realised
+                 ensures=[f"forall(Dep, lambda x: (x in result) == layer_abstract_rel(self._module_requirement, {_LMAP}, explicitly_requested_dependencies, x))"],
+                 locals=dict(result="Set[Dep]", explicitly_requested_dependencies_by_layers="DDict[Opt[LayerName],Dict[Dep,Bag[Dep]]]", explicitly_requested_dependencies_for_layer="Dict[Dep,Bag[Dep]]"),
+                 loops={0: dict(sig="for layer in self._layer_to_module_mapping.all_layers", invariant=[
+                     f"forall(Dep, lambda x: (x in result) == exists(Dep, lambda k: (k in explicitly_requested_dependencies) and x == order_b({_SUBJ}, k) and "
+                     f"(not is_none(dep_layer({_SUBJ}, {_LMAP}, k))) and (unwrap(dep_layer({_SUBJ}, {_LMAP}, k)) in seen) and "
+                     f"forall(Dep, lambda k2: implies((k2 in explicitly_requested_dependencies) and dep_layer({_SUBJ}, {_LMAP}, k2) == dep_layer({_SUBJ}, {_LMAP}, k), "
+                     "not nonempty(explicitly_requested_dependencies[k2])))))"])},
+                 # proof hints (each is itself an obligation): the group read for this layer is exactly the pairs whose rule object lies in it, and none of them has a realisation
+                 ghost_at={"result.update(": [
+                     f"forall(Dep, lambda k: (k in explicitly_requested_dependencies_for_layer) == ((k in explicitly_requested_dependencies) and dep_layer({_SUBJ}, {_LMAP}, k) == layer))",
+                     "forall(Dep, lambda k: implies(k in explicitly_requested_dependencies_for_layer, len(explicitly_requested_dependencies_for_layer[k]) == 0))",
+                     "forall(Dep, lambda k: implies(k in explicitly_requested_dependencies_for_layer, not nonempty(explicitly_requested_dependencies_for_layer[k])))",
+                     "forall(Dep, lambda k: implies(k in explicitly_requested_dependencies_for_layer, not nonempty(explicitly_requested_dependencies[k])))"]},
+                 properties=["C05"]))
+# (quantifiers range over LayerName and the None group separately: a quantified Optional is split into (is-none flag, value), which leaves e-matching without a trigger)
+def _grp(res, extra):
+    D = "explicitly_requested_dependencies"
+    return [f"forall(LayerName, Dep, lambda l, k: ((l in {res}) and (k in {res}[l])) == ({extra}(k in {D}) and dep_layer({_SUBJ}, {_LMAP}, k) == l))",
+            f"forall(Dep, lambda k: ((None in {res}) and (k in {res}[None])) == ({extra}(k in {D}) and is_none(dep_layer({_SUBJ}, {_LMAP}, k))))",
+            f"forall(LayerName, Dep, lambda l, k: implies((l in {res}) and (k in {res}[l]), same_elements({res}[l][k], {D}[k])))",
+            f"forall(Dep, lambda k: implies((None in {res}) and (k in {res}[None]), same_elements({res}[None][k], {D}[k])))",
+            f"forall(LayerName, lambda l: implies(l in {res}, exists(Dep, lambda k: k in {res}[l])))",
+            f"implies(None in {res}, exists(Dep, lambda k: k in {res}[None]))"]
+
+
+REG.add(Contract(f"{LD}._group_explicitly_requested_dependencies_by_layers", module=M_LD, kind="method",
+                 params=dict(self=LD, explicitly_requested_dependencies="Dict[Dep,Bag[Dep]]"), returns="DDict[Opt[LayerName],Dict[Dep,Bag[Dep]]]",
+                 # C05: every abstract pair lands in exactly the group of its rule object's layer (None = the object module is in no layer), with its realisations unchanged;
+                 # there are no other groups and no empty ones
+                 ensures=_grp("result", ""),
+                 locals=dict(result="DDict[Opt[LayerName],Dict[Dep,Bag[Dep]]]"),
+                 loops={0: dict(sig="for (abstract_dependency, concrete_dependencies) in explicitly_requested_dependencies.items()",
+                                invariant=_grp("result", "((k, explicitly_requested_dependencies[k]) in seen) and "))},
+                 properties=["C05"]))
+for _name, _K, _rel in (("_should_requirement_violations", "Dep", "layer_abstract_rel"), ("_should_only_requirement_violations_by_no_import", "Dep", "layer_abstract_rel"),
+                        ("_should_except_requirement_violations", "Mod", "layer_missing_rel"), ("_should_only_except_requirement_violations_due_to_no_other_imports", "Mod", "layer_missing_rel")):
+    _fn = _ex.module(M_LD).function(f"{LD}.{_name}")
+    _an = [a.arg for a in _fn.args.args] if _fn is not None else ["self", "flag", "deps"]
+    REG.add(Contract(f"{LD}.{_name}", module=M_LD, kind="method", params={_an[0]: LD, _an[1]: "Bool", _an[2]: f"Opt[Dict[{_K},Bag[Dep]]]"}, returns="Set[Dep]",
+                     # missing-import buckets of the layer detector: exactly the layer-level relation, and nothing unless the flag is set and the query was made
+                     ensures=[f"forall(Dep, lambda x: (x in result) == ({_an[1]} and (not is_none({_an[2]})) and {_rel}(self._module_requirement, {_LMAP}, unwrap({_an[2]}), x)))"],
+                     properties=["C05"]))
